@@ -105,6 +105,18 @@ func valueForms(r *recorder, q string) map[string]any {
 }
 
 // cmdQuoteEnum: every value string w up to -n symbols over the alphabet (no double quote, NUL or invalid byte).
+// symText: the bytes of a symbol; "W:text" stands for the literal word text (values that mean something to SQL or Go:
+// null, true, NaN ...), so that such a case replays like any other symbol sequence.
+func symText(s string) string {
+	if strings.HasPrefix(s, "W:") {
+		return s[2:]
+	}
+	return symBytes[s]
+}
+
+var quoteWords = []string{"null", "NULL", "Null", "true", "FALSE", "nan", "NaN", "inf", "Infinity", "default", "DEFAULT", "select", "current_user",
+	"and", "or", "not", "to", "And", "oR", "NOT", "TO", "nil", "undefined", "0x10", "1e5", "1_000", "e", "E1", ".5", "5.", "-", "--", "+1", "-0", "00", "007"}
+
 func cmdQuoteEnum(args []string) {
 	fs := newFlags("quote-enum", args)
 	n := fs.Int("n", 2, "max symbols")
@@ -114,6 +126,7 @@ func cmdQuoteEnum(args []string) {
 	random := fs.Int("random", 0, "random strings instead of enumeration")
 	rlen := fs.Int("len", 40, "max length of random strings")
 	seed := fs.Int64("seed", 1, "seed")
+	words := fs.Bool("words", false, "the word list (null, true, NaN, keywords in every case ...) instead of the enumeration")
 	fs.Parse(args)
 	var si, sk int
 	fmt.Sscanf(*shard, "%d/%d", &si, &sk)
@@ -124,7 +137,7 @@ func cmdQuoteEnum(args []string) {
 	run := func(seq []string) {
 		var sb strings.Builder
 		for _, s := range seq {
-			sb.WriteString(symBytes[s])
+			sb.WriteString(symText(s))
 		}
 		w := sb.String()
 		if strings.ContainsAny(w, "\"\x00") || !utf8.ValidString(w) {
@@ -143,6 +156,20 @@ func cmdQuoteEnum(args []string) {
 		}
 		r.write(line)
 		written++
+	}
+	if *words { // whole words, alone and next to one other symbol
+		for _, w := range quoteWords {
+			id++
+			run([]string{"W:" + w})
+			for _, a := range alphabet {
+				id++
+				run([]string{"W:" + w, a})
+				id++
+				run([]string{a, "W:" + w})
+			}
+		}
+		summary(map[string]any{"inputs": written})
+		return
 	}
 	if *random > 0 {
 		rng := newRng(*seed)
@@ -191,7 +218,7 @@ func cmdQuoteOne(args []string) {
 	defer closeFn()
 	var sb strings.Builder
 	for _, s := range seq {
-		sb.WriteString(symBytes[s])
+		sb.WriteString(symText(s))
 	}
 	w := sb.String()
 	line := map[string]any{"id": 1, "wsyms": seq, "w": codes(w), "quoted": valueForms(r, `f:"`+w+`"`)}
